@@ -254,11 +254,12 @@ func (l *Lexer) peekChar() byte {
 	return l.input[l.readPosition]
 }
 
-func (l *Lexer) prevChar() byte {
-	if l.readPosition < 2 {
-		return l.input[l.readPosition-1]
+// peekAt returns the n-th byte after the current one (0 past the end).
+func (l *Lexer) peekAt(n int) byte {
+	if l.position+n >= len(l.input) {
+		return 0
 	}
-	return l.input[l.readPosition-2]
+	return l.input[l.position+n]
 }
 
 func (l *Lexer) readIdentifier() string {
@@ -307,20 +308,26 @@ func (l *Lexer) readBString() string {
 }
 
 func (l *Lexer) readHTML() string {
-	position := l.position
+	var out strings.Builder
 
 	for l.ch != 0 {
-		if l.ch == '\\' && l.prevChar() == '\\' && l.peekChar() == '<' {
-			// escape escaping
-			l.readChar()
-			x := l.input[position : l.position-1]
-			return x
-		}
+		if l.ch == '\\' {
+			// escape escaping: \\<% is one backslash followed by a live tag
+			if l.peekAt(1) == '\\' && l.peekAt(2) == '<' && l.peekAt(3) == '%' {
+				out.WriteByte('\\')
+				l.readChar()
+				l.readChar()
+				break
+			}
 
-		// allow for expression escaping using \<% foo %>
-		if l.ch == '\\' && l.peekChar() == '<' {
-			l.readChar()
-			l.readChar()
+			// allow for expression escaping using \<% foo %>
+			if l.peekAt(1) == '<' && l.peekAt(2) == '%' {
+				out.WriteString("<%")
+				l.readChar()
+				l.readChar()
+				l.readChar()
+				continue
+			}
 		}
 
 		if l.ch == '<' && l.peekChar() == '%' {
@@ -328,9 +335,10 @@ func (l *Lexer) readHTML() string {
 			break
 		}
 
+		out.WriteByte(l.ch)
 		l.readChar()
 	}
-	return strings.Replace(l.input[position:l.position], "\\<%", "<%", -1)
+	return out.String()
 }
 
 func isLetter(ch byte) bool {
